@@ -42,7 +42,7 @@ TIERS = {
 }
 
 OBSERVE_OPS = ["touch", "contains", "keys", "glyphorder", "glyphset", "bestcmap", "tabledata", "save", "savexml", "deepcopy", "revmap", "ensure_table"]
-EDIT_OPS = ["name", "rev", "os2", "os2stale", "uvs", "hmtx", "vmtx", "headflags", "cmap", "glyfshift", "compbase", "cffshift", "flavordata", "deltable", "opaque", "reorder", "scale", "subset", "instantiate", "cffwidth", "gposvalue"]
+EDIT_OPS = ["name", "rev", "os2", "os2stale", "uvs", "hmtx", "vmtx", "headflags", "cmap", "glyfshift", "glyfscale", "compbase", "compnew", "cffshift", "flavordata", "deltable", "opaque", "reorder", "scale", "subset", "instantiate", "cffwidth", "gposvalue"]
 BIG_EDITS = ("reorder", "scale", "subset", "instantiate")
 
 
@@ -234,6 +234,12 @@ def generate(ctx, batch, idx):
         }
         n = r.randint(1, 12)
         ops = [_gen_op(r, batch, has_fvar) for _ in range(n)]
+        # an outline scaled down (fractional coordinates in memory, as after any caller-side transform or
+        # interpolation) is usually scaled back up later in the history: whatever happened in between must not
+        # have touched the fractions
+        for j_ in range(len(ops) - 1, -1, -1):
+            if ops[j_][0] == "glyfscale" and r.random() < 0.75:
+                ops.insert(r.randint(j_ + 1, len(ops)), ["glyfunscale", dict(ops[j_][1])])
         # at most two whole-font transformations per history (cost)
         seen = 0
         for op in ops:
@@ -559,6 +565,44 @@ def apply_edit(font, name, a):
                     gl.coordinates.translate((1 + k % 5, -(k % 3)))
                     break
         return font
+    if name in ("glyfscale", "glyfunscale"):
+        if "glyf" in font:
+            go = font.getGlyphOrder()
+            f = 0.5 if name == "glyfscale" else 2.0
+            n_ = 0
+            for j in range(len(go)):
+                gl = font["glyf"][go[(k + j) % len(go)]]
+                if gl.numberOfContours > 0:
+                    gl.coordinates.scale((f, f))
+                    n_ += 1
+                    if n_ >= 1 + k % 3:
+                        break
+        return font
+    if name == "compnew":
+        # a glyph is rebuilt as a composite of a simple glyph that comes LATER in the glyph order (an accented
+        # letter built from a mark at the end of the font), and that component's outline is moved afterwards:
+        # every box that depends on it must follow, whatever order the glyphs are compiled in
+        if "glyf" in font:
+            from fontTools.ttLib.tables._g_l_y_f import Glyph, GlyphComponent
+
+            go = font.getGlyphOrder()
+            glyf = font["glyf"]
+            for j in range(len(go) - 2):
+                bi = 2 + (k + j) % (len(go) - 2)
+                base = glyf[go[bi]]
+                if base.numberOfContours > 0:
+                    ai = 1 + (k // 7) % (bi - 1)
+                    g = Glyph()
+                    g.numberOfContours = -1
+                    c = GlyphComponent()
+                    c.glyphName = go[bi]
+                    c.x, c.y = (k % 90) - 30, (k % 50) - 10
+                    c.flags = 0x4
+                    g.components = [c]
+                    glyf[go[ai]] = g
+                    base.coordinates.translate((41 + k % 60, 13 + k % 9))
+                    break
+        return font
     if name == "compbase":
         # moves the outline of a simple glyph that composites use as a component; the glyph is found by the
         # independent glyf reader in the file the font was opened from, so that no composite is expanded by
@@ -573,7 +617,19 @@ def apply_edit(font, name, a):
                 glyphs = []
             cands = sorted({c["gid"] for g in glyphs if g and g["nc"] < 0 for c in g["comps"] if c["gid"] < len(glyphs) and glyphs[c["gid"]] and glyphs[c["gid"]]["nc"] > 0})
             if cands:
-                gl = font["glyf"][font.getGlyphName(_sel(cands, k))]
+                b = _sel(cands, k)
+                bname = font.getGlyphName(b)
+                users = [i for i, g in enumerate(glyphs) if g and g["nc"] < 0 and i > b and any(c["gid"] == b for c in g["comps"])]
+                if users and b > 0 and k % 2 == 0:
+                    # the composite changes places with its component first (accented letters ahead of the marks
+                    # they are built from): the composite is then compiled before the edited outline is
+                    from fontTools.ttLib.reorderGlyphs import reorderGlyphs
+
+                    go = list(font.getGlyphOrder())
+                    u = _sel(users, k // 2)
+                    go[b], go[u] = go[u], go[b]
+                    reorderGlyphs(font, go)
+                gl = font["glyf"][bname]
                 if gl.numberOfContours > 0:
                     gl.coordinates.translate((37 + k % 50, 11 + k % 7))
         return font
@@ -663,7 +719,9 @@ def apply_edit(font, name, a):
                 for i_, tok in enumerate(pr):
                     if tok in ("rmoveto", "hmoveto", "vmoveto"):
                         if i_ >= 1 and isinstance(pr[i_ - 1], (int, float)):
-                            pr[i_ - 1] = pr[i_ - 1] + 300 + k % 700
+                            # (every other time by a fractional amount: outlines off the integer grid, whose
+                            # boxes are rounded outwards wherever they are stored)
+                            pr[i_ - 1] = pr[i_ - 1] + 300 + k % 700 + (0.5 if k % 2 == 0 else 0)
                             return font
                         break
         return font
